@@ -8,8 +8,9 @@ COQ = os.path.join(VERIF, "coq")
 import hashlib
 BUILD = os.path.join(VERIF, "build") if REPO == "/repo" else os.path.join(VERIF, "build", "alt-" + hashlib.sha1(REPO.encode()).hexdigest()[:10])
 HARNESS = os.path.join(VERIF, "harness")
-EVID = os.path.join(VERIF, "evidence")
-REPLAYS = os.path.join(VERIF, "replays")
+# evidence of runs against another checkout (VERIF_REPO=..., used to try seeded changes) must not overwrite the evidence of /repo
+EVID = os.path.join(VERIF, "evidence") if REPO == "/repo" else os.path.join(BUILD, "evidence")
+REPLAYS = os.path.join(VERIF, "replays") if REPO == "/repo" else os.path.join(BUILD, "replays")
 CORPUS = os.path.join(VERIF, "corpus")
 NCPU = os.cpu_count() or 4
 
